@@ -1853,6 +1853,15 @@ fn prog_streams(args: &Args, rng: &mut Rng, out: &mut Out, hist: &mut Hist) {
         }
         run_prog(&mk("vk", false, 0, vec![good.clone()], vec![(s, 0)]), out, hist);
         run_prog(&mk("msl", true, rng.next() | 1, vec![bad2.clone()], vec![(s, 0)]), out, hist);
+        // the other option values of compile(): source info, a define, buffer addresses only when needed, one of two
+        // pipelines picked by name
+        for t in targets {
+            for pipe in [false, true] {
+                let mut p = mk(t, pipe, 0, vec![bad.clone()], vec![(s, 0)]);
+                p.opt = true;
+                run_prog(&p, out, hist);
+            }
+        }
     }
     // P2. two sites: an agreeing structure at one and a differing one at the other, in both orders; the same
     //     differing structure first at a site validation ignores and then at one it must look at (and vice versa)
@@ -1863,10 +1872,16 @@ fn prog_streams(args: &Args, rng: &mut Rng, out: &mut Out, hist: &mut Hist) {
             let t = *rng.pick(&targets);
             let pipe = rng.chance(1, 2);
             let style = if rng.chance(1, 2) { 0 } else { rng.next() | 1 };
-            run_prog(&mk(t, pipe, style, vec![good.clone(), bad.clone()], vec![(&other, 0), (s, 1)]), out, hist);
-            run_prog(&mk(t, pipe, style, vec![good.clone(), bad.clone()], vec![(s, 1), (&other, 0)]), out, hist);
-            run_prog(&mk(t, pipe, style, vec![bad.clone()], vec![(&other, 0), (s, 0)]), out, hist);
-            run_prog(&mk(t, pipe, style, vec![bad2.clone(), bad.clone()], vec![(&other, 0), (s, 1)]), out, hist);
+            let opt = rng.chance(1, 3);
+            let mko = |tys: Vec<Ty>, ss: Vec<(&(String, String), usize)>| {
+                let mut p = mk(t, pipe, style, tys, ss);
+                p.opt = opt;
+                p
+            };
+            run_prog(&mko(vec![good.clone(), bad.clone()], vec![(&other, 0), (s, 1)]), out, hist);
+            run_prog(&mko(vec![good.clone(), bad.clone()], vec![(s, 1), (&other, 0)]), out, hist);
+            run_prog(&mko(vec![bad.clone()], vec![(&other, 0), (s, 0)]), out, hist);
+            run_prog(&mko(vec![bad2.clone(), bad.clone()], vec![(&other, 0), (s, 1)]), out, hist);
         }
     }
     // P3. the widened type universe, one member type at a time, through a structured buffer and a typed load
@@ -1946,7 +1961,9 @@ fn prog_streams(args: &Args, rng: &mut Rng, out: &mut Out, hist: &mut Hist) {
         let t = deep_chain(rng, 4 + (k % 4) as u32);
         let site = rng.pick(&sites).clone();
         let style = if rng.chance(1, 2) { 0 } else { rng.next() | 1 };
-        run_prog(&mk(*rng.pick(&targets), rng.chance(1, 2), style, vec![t], vec![(&site, 0)]), out, hist);
+        let mut p = mk(*rng.pick(&targets), rng.chance(1, 2), style, vec![t], vec![(&site, 0)]);
+        p.opt = rng.chance(1, 3);
+        run_prog(&p, out, hist);
     }
     // P5. random programs: 1-3 types, 1-5 sites of any kind
     let n = if thorough { 60000 } else { 1500 };
@@ -1993,7 +2010,9 @@ fn prog_streams(args: &Args, rng: &mut Rng, out: &mut Out, hist: &mut Hist) {
             ss.push((s, k));
         }
         let style = if rng.chance(1, 2) { 0 } else { rng.next() | 1 };
-        run_prog(&mk(*rng.pick(&targets), rng.chance(1, 3), style, tys.clone(), ss), out, hist);
+        let mut p = mk(*rng.pick(&targets), rng.chance(1, 3), style, tys.clone(), ss);
+        p.opt = rng.chance(1, 3);
+        run_prog(&p, out, hist);
     }
     sharing_streams(args, rng, out, hist);
 }
